@@ -345,6 +345,8 @@ func (m *IntegerPreAgg) addValues(col *record.ColVal, times []int64) {
 	values := col.IntegerValues()
 	valLen := len(values)
 	agg := m.values
+	// the first value of an empty aggregate always becomes min and max, also when it equals the initial sentinels
+	first := agg[countIndex] == 0
 	for i, j := 0, 0; i < col.Len; i++ {
 		if col.NilCount > 0 && col.IsNil(i) {
 			continue
@@ -352,14 +354,15 @@ func (m *IntegerPreAgg) addValues(col *record.ColVal, times []int64) {
 
 		v := values[j]
 		j++
-		if agg[minIndex] > v {
+		if first || agg[minIndex] > v {
 			agg[minIndex] = v
 			agg[minTIndex] = times[i]
 		}
-		if agg[maxIndex] < v {
+		if first || agg[maxIndex] < v {
 			agg[maxIndex] = v
 			agg[maxTIndex] = times[i]
 		}
+		first = false
 
 		agg[sumIndex] += v
 	}
@@ -563,6 +566,9 @@ func (m *FloatPreAgg) sum() interface{} {
 func (m *FloatPreAgg) addValues(col *record.ColVal, times []int64) {
 	values := col.FloatValues()
 	valLen := len(values)
+	// the first comparable value of an empty aggregate always becomes min and max, also when it is
+	// +-Inf or equals the initial sentinels
+	first := m.countV == 0
 	for i, j := 0, 0; i < col.Len; i++ {
 		if col.NilCount > 0 && col.IsNil(i) {
 			continue
@@ -570,13 +576,17 @@ func (m *FloatPreAgg) addValues(col *record.ColVal, times []int64) {
 
 		v := values[j]
 		j++
-		if m.minV > v {
+		init := first && v == v
+		if init || m.minV > v {
 			m.minV = v
 			m.minTime = times[i]
 		}
-		if m.maxV < v {
+		if init || m.maxV < v {
 			m.maxV = v
 			m.maxTime = times[i]
+		}
+		if init {
+			first = false
 		}
 
 		m.sumV += v
